@@ -1,7 +1,7 @@
 (* C18 gormx.Transact: the property, clause by clause, for every step list and every fault vector.
    This file contains statements closed by `exact` only. *)
 From Coq Require Import List Bool ZArith.
-Require Import C18 C18_Check.
+Require Import C18 C18_More C18_Check.
 Import ListNotations.
 
 (* the model satisfies the monitor on every configuration *)
@@ -22,6 +22,24 @@ Theorem c18_commit_iff_all_ok : forall c, steps c <> [] -> begin_ok c = true ->
   (count is_commit (fst (transact c)) = 1 <-> all_ok (steps c) = true).
 Proof. exact commit_iff_all_ok. Qed.
 
+(* no later step runs after the first failing or panicking one *)
+Theorem c18_no_step_after_failure : forall c i s, begin_ok c = true -> first_bad 0 (steps c) = Some (i, s) ->
+  count is_exec (fst (transact c)) = S i.
+Proof. exact no_step_after_failure_lem. Qed.
+
+Theorem c18_all_steps_run_when_ok : forall c, begin_ok c = true -> steps c <> [] -> first_bad 0 (steps c) = None ->
+  count is_exec (fst (transact c)) = length (steps c).
+Proof. exact all_steps_run_when_ok_lem. Qed.
+
+(* the caller's result: nil / first failing step's error / panic error / begin error / commit error *)
+Theorem c18_result_spec : forall c, snd (transact c) = expected_result c.
+Proof. exact result_spec_lem. Qed.
+
+(* the caller gets nil only if everything, the commit included, succeeded *)
+Theorem c18_nil_only_if_committed : forall c, steps c <> [] -> snd (transact c) = RNil ->
+  begin_ok c = true /\ all_ok (steps c) = true /\ commit_ok c = true.
+Proof. exact nil_only_if_committed_lem. Qed.
+
 (* with no steps nothing is begun *)
 Theorem c18_empty_begins_nothing : forall c, steps c = [] -> transact c = ([], RNil).
 Proof. exact empty_begins_nothing. Qed.
@@ -31,9 +49,23 @@ Theorem c18_begin_failure_runs_nothing : forall c, steps c <> [] -> begin_ok c =
   transact c = ([EBeginFail], RBeginErr).
 Proof. exact begin_failure_runs_nothing. Qed.
 
+(* Combine: one combined step behaves as the steps given directly *)
+Theorem c18_combine_spec : forall c, steps c <> [] -> transact_comb c = transact c.
+Proof. exact combine_spec_lem. Qed.
+
+Theorem c18_combine_empty : forall c, steps c = [] -> begin_ok c = true ->
+  transact_comb c = ([EBegin; ECommit], if commit_ok c then RNil else RCommitErr).
+Proof. exact combine_empty_lem. Qed.
+
 Print Assumptions c18_model_holds.
 Print Assumptions c18_accept_sound.
 Print Assumptions c18_transact_finished_once.
 Print Assumptions c18_commit_iff_all_ok.
+Print Assumptions c18_no_step_after_failure.
+Print Assumptions c18_all_steps_run_when_ok.
+Print Assumptions c18_result_spec.
+Print Assumptions c18_nil_only_if_committed.
 Print Assumptions c18_empty_begins_nothing.
 Print Assumptions c18_begin_failure_runs_nothing.
+Print Assumptions c18_combine_spec.
+Print Assumptions c18_combine_empty.
